@@ -14,21 +14,35 @@ from ..roles import SPAWN_EXT, is_ext
 from .common import after_event_search, loop_region, path_text
 
 
-def _registry_adds(ctx: Ctx, g: Graph, spawn: Ev) -> Set[int]:
-    """`.add(x)` / `.append(x)` events on a per-run container of the manager whose argument is the task
-    created by `spawn`."""
-    out = set()
+def _registry_adds(ctx: Ctx, g: Graph, spawn: Ev) -> Dict[int, object]:
+    """Events that put the task created by `spawn` into a container: `.add(x)` / `.append(x)` / `.appendleft(x)` /
+    `.insert(i, x)` / `.setdefault(x, ..)` calls and item stores `c[x] = ..` / `c[..] = x`.  -> event id -> term of the container."""
+    out: Dict[int, object] = {}
+
+    def is_task(expr: ast.AST, inst) -> bool:
+        e, i = sym.resolve_value(ctx.p, expr, inst)
+        return e is spawn.node or (isinstance(e, ast.Await) and e.value is spawn.node)
     for ev in g.events('call'):
         c = ev.node
-        if not (isinstance(c, ast.Call) and isinstance(c.func, ast.Attribute) and c.func.attr in ('add', 'append') and c.args):
+        if not (isinstance(c, ast.Call) and isinstance(c.func, ast.Attribute)
+                and c.func.attr in ('add', 'append', 'appendleft', 'insert', 'setdefault') and c.args):
             continue
         recv = sym.term(ctx.p, c.func.value, ev.inst)
-        if not (isinstance(recv, tuple) and recv[0] == 'attr' and recv[1] == ('param', 'self')
-                or (isinstance(recv, tuple) and recv[0] == 'attr')):
+        if not (isinstance(recv, tuple) and recv[0] == 'attr'):
             continue
-        e, i = sym.resolve_value(ctx.p, c.args[0], ev.inst)
-        if e is spawn.node or (isinstance(e, ast.Await) and e.value is spawn.node):
-            out.add(ev.id)
+        arg = c.args[1] if c.func.attr == 'insert' and len(c.args) > 1 else c.args[0]
+        if is_task(arg, ev.inst):
+            out[ev.id] = recv
+    for ev in g.events('store'):
+        if ev.info.get('how') != 'item':
+            continue
+        tgt = ev.info['target']
+        recv = sym.term(ctx.p, tgt.value, ev.inst)
+        if not (isinstance(recv, tuple) and recv[0] == 'attr'):
+            continue
+        val = ev.info.get('value')
+        if is_task(tgt.slice, ev.inst) or (val is not None and is_task(val, ev.inst)):
+            out[ev.id] = recv
     return out
 
 
@@ -92,11 +106,7 @@ def rule_spawn_registered(ctx: Ctx, out: Collector) -> None:
             if not ctx.roles.spawn(ev) or ev.inst.parent is not None:
                 continue
             n += 1
-            adds = set()
-            for a in _registry_adds(ctx, g, ev):
-                recv = sym.term(ctx.p, g.evs[a].node.func.value, g.evs[a].inst)
-                if recv == reg:
-                    adds.add(a)
+            adds = {a for a, recv in _registry_adds(ctx, g, ev).items() if recv == reg}
             path = after_event_search(ctx, g, ev.id, adds, {g.exit}, NORMAL_LABELS)
             cons = ctx.construct(ev) + ' [spawn registered]'
             if unit.cls is not ctx.manager_class():
@@ -181,6 +191,17 @@ def _rule_registry_strong(ctx: Ctx, out: Collector, reg) -> None:
             problems.append(f'{how} creates {name}')
         elif name not in STRONG_CONTAINERS:
             raise AnalysisError(f'unknown container {name} for the task registry (LK-7): neither a builtin strong container nor a weak one')
+    # ER-8: run() reports the first failed task in the iteration order of the registry; that order must not depend on
+    # the addresses of the task objects (hash order of a set), or identical runs report different errors
+    cons8 = f'{mgr.module.name}::{mgr.name}.{fld}::the task registry iterates in creation order [ordered-registry]'
+    unordered = [k for k in kinds if k.split(': ')[-1] in ('builtins.set', 'builtins.frozenset')]
+    if not unordered:
+        out.ok('ER-8', cons8, ctx.p.loc(mgr.module, mgr.node), '; '.join(kinds))
+    else:
+        out.bad('ER-8', cons8, ctx.p.loc(mgr.module, mgr.node),
+                f'the registry scanned for the first error is an unordered container ({"; ".join(unordered)}): tasks hash by address, so '
+                f'when two nodes have failed before run() looks, which error the run reports depends on the allocation history of the '
+                f'process - the same chart with the same input returns different errors from run to run')
     if not problems:
         out.ok('LK-7', cons, ctx.p.loc(mgr.module, mgr.node), '; '.join(kinds))
     else:
